@@ -273,7 +273,7 @@ def oracle(h):
             awaiting, mark = False, None
         if not alive:
             awaiting, mark = False, None
-        if cls_d10 or cls_d11 or cls_d24 or cls_d26 or tainted12:
+        if cls_d10 or cls_d11 or cls_d24 or cls_d26:
             # a step of a known class: take the receiver's own view of the outstanding request from here on
             awaiting = after["st"] == 12
             mark = after["maxres"] if awaiting else None
